@@ -62,6 +62,11 @@ type Context struct {
 	HasSynced         []cache.InformerSynced
 	queue             workqueue.RateLimitingInterface
 	updatedConfigs    chan *execution.JobConfig
+
+	// scheduleInitialized is set to 1 once the CronWorker starts loading existing
+	// JobConfigs into its schedule. JobConfigs added after that are flushed
+	// through updatedConfigs.
+	scheduleInitialized uint32
 }
 
 // NewContext returns a new Context.
